@@ -137,7 +137,41 @@ func c13Run(c *Ctx) {
 	accept := true
 	victim := ins[r.Intn(nIn)]
 	inPlace := false // the deviating tensor is the object of an earlier conforming Run, reshaped in place
-	switch r.Intn(10) {
+	switch r.Intn(11) {
+	case 10: // two axes off at once, in opposite directions (or the extents in another order)
+		if t, ok := feed[victim.name]; ok && len(victim.dims) >= 2 {
+			shape := append([]int{}, t.Shape...)
+			p := r.Perm(len(shape))
+			i, j := p[0], p[1]
+			if r.Bool() && shape[i] != shape[j] {
+				shape[i], shape[j] = shape[j], shape[i]
+			} else {
+				k := r.Range(1, 2)
+				shape[i] += k
+				shape[j] -= k
+				if shape[j] < 1 {
+					shape[j] += 2 * k
+					shape[i] -= 2 * k
+				}
+			}
+			valid := true
+			for _, e := range shape {
+				if e < 1 {
+					valid = false
+				}
+			}
+			if valid && !ref.ShapeEq(shape, t.Shape) {
+				feed[victim.name] = r.Tensor(ref.F32, shape, gen.FillSmall, 5)
+				deviation = fmt.Sprintf("two axes of %s changed at once %v->%v", victim.name, t.Shape, shape)
+				if !victim.shadowed {
+					for d := range shape {
+						if victim.dims[d].Value > 0 && int64(shape[d]) != victim.dims[d].Value {
+							accept = false
+						}
+					}
+				}
+			}
+		}
 	case 9: // the SAME tensor object as in an earlier conforming Run, reshaped in place by its owner
 		if t, ok := feed[victim.name]; ok && len(t.Bits) > 1 {
 			var shape []int
@@ -444,7 +478,31 @@ func c13Reported(c *Ctx) {
 	var res gonnx.Tensors
 	o := mon.Capture(nil, func() ([]tensor.Tensor, error) {
 		var err error
-		if m, err = gonnx.NewModelFromBytes(g.Bytes()); err != nil {
+		if c.Idx%32 == 27 {
+			// the owner of a ModelProto object made a model from it, ran it, edited the input
+			// declaration in place and makes a new model from the same object: that model reports
+			// and enforces what the object declares NOW
+			other := make([]mon.Dim, rank)
+			for d := range other {
+				other[d] = mon.Dim{Value: int64(shape[d] + 1 + d)}
+			}
+			g0 := *g
+			g0.Inputs = []mon.GInput{{Name: "x", DT: ref.F32, Dims: other}}
+			mp := g0.Proto()
+			if m0, err0 := gonnx.NewModel(mp); err0 == nil {
+				first := make([]int, rank)
+				for d := range first {
+					first[d] = shape[d] + 1 + d
+				}
+				_, _ = m0.Run(gonnx.Tensors{"x": mon.ToTensor(ref.New(ref.F32, first...))})
+				_ = m0.InputShapes()
+			}
+			mp.Graph.Input[0] = mon.ValueInfo(g.Inputs[0])
+			c.Count("reported-is-enforced-after-an-in-place-edit-of-the-declaration", 1)
+			if m, err = gonnx.NewModel(mp); err != nil {
+				return nil, fmt.Errorf("load: %w", err)
+			}
+		} else if m, err = gonnx.NewModelFromBytes(g.Bytes()); err != nil {
 			return nil, fmt.Errorf("load: %w", err)
 		}
 		reported = m.InputShapes()["x"]
